@@ -28,8 +28,8 @@ macro_rules! slice_h {
             kani::assume(len <= $n);
             let $d: &[u8] = &buf[..len];
             $body;
-            kani::cover!(len == $n, "full length reached");
-            kani::cover!(len == 0, "empty input reached");
+            crate::vcover!(len == $n, "full length reached");
+            crate::vcover!(len == 0, "empty input reached");
         }
     };
 }
@@ -125,7 +125,7 @@ pub fn c12_opus_config() {
     let m = opus::OpusConfig::mono();
     let s = opus::OpusConfig::stereo();
     assert!(m.output_channel_count == 1 && s.output_channel_count == 2);
-    kani::cover!(c.channel_mapping_family == 1, "mapping family 1");
+    crate::vcover!(c.channel_mapping_family == 1, "mapping family 1");
     core::mem::forget((c, m, s));
 }
 
@@ -141,7 +141,7 @@ macro_rules! fixed_h {
             let buf: [u8; $n] = kani::any();
             let $d: &[u8] = &buf[..];
             $body;
-            kani::cover!(true, "harness end reached");
+            crate::vcover!(true, "harness end reached");
         }
     };
 }
@@ -196,7 +196,7 @@ pub fn c12_h264_extract_empty() {
     let r = h264::extract_avc_config(&e[..]);
     assert!(r.is_none());
     core::mem::forget(r);
-    kani::cover!(true, "reached");
+    crate::vcover!(true, "reached");
 }
 
 //@ prop=C12 tier=quick cost=200 fns="codec::h265::extract_hevc_config,HevcConfig::{general_profile_space,general_tier_flag,general_profile_idc,general_level_idc}" bound="all byte strings of length 9" unwind=12 stubs="assert_invariant(panic-only)" timeout=900
@@ -249,7 +249,7 @@ pub fn c12_frag_ready_queries() {
     let _ = m.current_fragment_duration_ms();
     let e = FragmentedMuxer::new(fcfg(ts, kani::any()));
     assert!(!e.ready_to_flush() && e.current_fragment_duration_ms() == 0);
-    kani::cover!(ts == 1, "timescale 1");
+    crate::vcover!(ts == 1, "timescale 1");
     core::mem::forget((m, e));
 }
 //@ prop=C12 tier=quick cost=30 fns="fragmented::FragmentedMuxer::ready_to_flush" bound="2 queued samples, timescale 0" unwind=6 expect=fail kf=KF-C12-frag-timescale-zero
@@ -289,7 +289,7 @@ pub fn c12_frag_flush_k1() {
     let mut m = fh::muxer_with_state::<1>(fcfg(90000, 2000), [fh::mk_sample(p, d, fdata(1), kani::any())], 1, seq, kani::any(), None, Some(d));
     let r = m.flush_segment();
     assert!(r.is_some());
-    kani::cover!(true, "reached");
+    crate::vcover!(true, "reached");
     core::mem::forget((m, r));
 }
 //@ prop=C12 tier=quick cost=100 fns="fragmented::FragmentedMuxer::flush_segment" bound="1 queued sample; sequence number u32::MAX or dts near u64::MAX" unwind=6 timeout=1200 expect=fail kf=KF-C12-frag-flush-arithmetic-overflow
@@ -325,7 +325,7 @@ pub fn c12_frag_write_and_init() {
     assert!(r.is_ok());
     let i = m.init_segment();
     assert!(i.len() > 8);
-    kani::cover!(true, "reached");
+    crate::vcover!(true, "reached");
     core::mem::forget((m, r, i));
 }
 
@@ -344,7 +344,7 @@ pub fn c12_stsz_sizes() {
     }
     let b = mp4h2::build_stsz_box(&s);
     assert!(b.len() == 28);
-    kani::cover!(true, "reached");
+    crate::vcover!(true, "reached");
 }
 //@ prop=C12 tier=quick cost=30 fns="muxer::mp4::build_stsz_box" bound="one zero-size sample" unwind=6 stubs="assert_invariant(panic-only),fmt::format" expect=fail kf=KF-C12-stsz-zero-size-sample
 #[kani::proof]
@@ -392,7 +392,7 @@ macro_rules! entry_dims_h {
             let cfg = $cfg;
             let b = $f(&muxide::verif_hooks::mp4::Mp4VideoTrack { width: w, height: h }, &cfg);
             assert!(b.len() > 86);
-            kani::cover!(w == 65535, "largest width");
+            crate::vcover!(w == 65535, "largest width");
             core::mem::forget(cfg);
         }
     };
@@ -420,7 +420,7 @@ pub fn c12_days_to_ymd_bounded() {
     kani::assume(d < 14610);
     let (y, m, dd) = mp4h2::days_to_ymd(d);
     assert!(y >= 1970 && y < 2011 && m >= 1 && m <= 12 && dd >= 1 && dd <= 31);
-    kani::cover!(y == 2009, "last year reached");
+    crate::vcover!(y == 2009, "last year reached");
 }
 //@ prop=C12 tier=quick cost=60 fns="muxer::mp4::days_to_ymd" bound="all u64 days: the year loop needs days/365 iterations (unwinding assertion at 20 fails)" unwind=20 expect=fail expect_unwind=1 kf=KF-C12-calendar-loop-unbounded
 #[kani::proof]
@@ -447,5 +447,5 @@ pub fn c12_language_any_string() {
     assert!(a[0] & 0x80 == 0, "pad bit stays clear");
     let e = mp4h2::encode_language_code("");
     assert!(e == [0x55, 0xc4], "empty code falls back to 'und'");
-    kani::cover!(two_one, "multi-byte character");
+    crate::vcover!(two_one, "multi-byte character");
 }
